@@ -210,3 +210,139 @@ func c06r9(c *Ctx, r *Report) {
 	})
 	r.floor("pushers that bypass ChunkList.Push", n, 1)
 }
+
+// c03r5: exact, boundary, prefix, suffix and equal terms report an occurrence [Start, End) and must score
+// THAT occurrence: the Score of every matching Result they return is the value calculateScore computed
+// (the same scorer fuzzy V1 uses), not a closed form (D22: EqualMatch returned (16+bonusBoundaryWhite)*len
+// + bonusBoundaryWhite, which is the scorer's value only when the first character gets the whitespace
+// boundary bonus and no later bonus is larger — false under --scheme=path, whose initial class is the
+// delimiter class, and false for lines starting with a non-word character under any scheme).
+func c03r5(c *Ctx, r *Report) {
+	l := c.L
+	r.rule("C03-R5", "B (provenance of the returned score)", "P1",
+		"in package algo, every function of type Algo other than FuzzyMatchV2 returns, on each return whose Start is not the constant -1, a Score that is the first result of a calculateScore call",
+		"an equal / prefix / suffix / exact term is ranked with a score that is not the score of the occurrence it reports: under --scheme=path a whole-line match ranks below a prefix match of a longer line")
+	calc := l.Fn("algo", "calculateScore")
+	if calc == nil {
+		r.unest("anchors", token.NoPos, nil, "anchor calculateScore", "cannot resolve")
+		return
+	}
+	n := 0
+	for _, fn := range l.AllFuncs() {
+		if fn.Pkg != l.pkg("algo") || fn.Blocks == nil || fn.Parent() != nil {
+			continue
+		}
+		sig := fn.Signature
+		if sig.Results().Len() != 2 {
+			continue
+		}
+		rt, ok := sig.Results().At(0).Type().(*types.Named)
+		if !ok || rt.Obj().Name() != "Result" {
+			continue
+		}
+		if fn.Name() == "FuzzyMatchV2" {
+			continue // the dynamic programme; its score is the subject of C03-R1/R2 and C05-R9/R10
+		}
+		k := 0
+		eachInstr(fn, func(in ssa.Instruction) {
+			ret, ok := in.(*ssa.Return)
+			if !ok {
+				return
+			}
+			start, end, score := resultFields(ret.Results[0])
+			if start == nil || score == nil || end == nil {
+				// a call result forwarded as is (ExactMatchNaive -> exactMatchNaive): the callee is checked
+				if call, ok := ret.Results[0].(*ssa.Extract); ok {
+					if cc, ok := call.Tuple.(*ssa.Call); ok && cc.Common().StaticCallee() != nil && cc.Common().StaticCallee().Pkg == fn.Pkg {
+						return
+					}
+				}
+				k++
+				n++
+				r.unest(fmt.Sprintf("%s:return #%d", relName(fn), k), ret.Pos(), fn, "the returned Result is a literal whose fields can be read", "cannot resolve the fields of the returned Result")
+				return
+			}
+			if isConstInt(start, -1) {
+				return
+			}
+			if a, ok1 := constIntVal(start); isConstInt(score, 0) && (start == end || ok1 && isConstInt(end, a)) {
+				return // the empty pattern: an empty occurrence scores 0
+			}
+			k++
+			n++
+			isScorer := func(v ssa.Value) bool {
+				if ex, ok := v.(*ssa.Extract); ok && ex.Index == 0 {
+					if cc, ok := ex.Tuple.(*ssa.Call); ok && callIs(cc.Common(), calc) {
+						return true
+					}
+				}
+				return false
+			}
+			// the value itself must be the scorer's result, not an expression over it; where the function
+			// also serves boundary terms ('foo'), which have a ranking of their own, the edges computed
+			// under boundaryCheck are not in the property's list of term kinds and are left alone
+			var bc ssa.Value
+			for _, p := range fn.Params {
+				if p.Name() == "boundaryCheck" {
+					bc = p
+				}
+			}
+			fromScorer := isScorer(score)
+			if phi, ok := score.(*ssa.Phi); ok {
+				fromScorer = true
+				pc := pathConds(fn)
+				nScorer := 0
+				for i, e := range phi.Edges {
+					if isScorer(e) {
+						nScorer++
+						continue
+					}
+					holds, _ := pc.Implies(phi.Block().Preds[i], func(lits []Lit) bool {
+						return hasLit(lits, func(a ssa.Value, v bool) bool { return bc != nil && a == bc && v })
+					})
+					if !holds {
+						fromScorer = false
+					}
+				}
+				if nScorer == 0 {
+					fromScorer = false
+				}
+			}
+			r.check(fromScorer, fmt.Sprintf("%s:matching return #%d", relName(fn), k), ret.Pos(), fn,
+				"Score is the result of calculateScore over the reported range", "Score is not the value calculateScore computed: a closed form that agrees with the scorer only for some bonus configurations")
+		})
+	}
+	r.floor("matching returns of the non-DP matchers", n, 5)
+}
+
+// resultFields resolves the Start (field 0) and Score (field 2) operands of a Result value built by a
+// composite literal: a load of a local whose fields are stored once each.
+func resultFields(v ssa.Value) (start, end, score ssa.Value) {
+	u, ok := v.(*ssa.UnOp)
+	if !ok || u.Op != token.MUL {
+		return nil, nil, nil
+	}
+	al, ok := u.X.(*ssa.Alloc)
+	if !ok || al.Referrers() == nil {
+		return nil, nil, nil
+	}
+	for _, ref := range *al.Referrers() {
+		fa, ok := ref.(*ssa.FieldAddr)
+		if !ok || fa.Referrers() == nil {
+			continue
+		}
+		for _, r2 := range *fa.Referrers() {
+			if st, ok := r2.(*ssa.Store); ok && st.Addr == ssa.Value(fa) {
+				switch fa.Field {
+				case 0:
+					start = st.Val
+				case 1:
+					end = st.Val
+				case 2:
+					score = st.Val
+				}
+			}
+		}
+	}
+	return
+}
